@@ -20,7 +20,7 @@ theorem FnOK.of_relocate (G : GCtx) (fd : FnDef) (stmts : List Stmt) (e : Expr) 
     (hcode : findCode G.code (mangleFnName G.mod fd.name) = some (renameVars r))
     (hslot : ∀ m ∈ varNames r, slotFn r m < (fnParts G.mod φ fd stmts (some e) scopes0 vm0 lm0).envE.nv)
     (hframe : (fnParts G.mod φ fd stmts (some e) scopes0 vm0 lm0).envE.nv ≤ G.F)
-    (okS : Frag.okFSs G.fr false true stmts = true) (okE : Frag.okGE e = true)
+    (okS : Frag.okFSs G.fr false true stmts = true) (okE : Frag.okE G.fr e = true)
     (wsS : Frag.wsGSs G.mod fd.name φ [] stmts (fnParts G.mod φ fd stmts (some e) scopes0 vm0 lm0).envB = true)
     (wsE : Frag.wsGE (fnParts G.mod φ fd stmts (some e) scopes0 vm0 lm0).envS.scopes φ e = true)
     (tParams : ∀ p ∈ fd.params, p.name ∈ T) (tIdents : ∀ x ∈ Frag.identsGSs stmts, x ∈ T)
@@ -50,7 +50,7 @@ theorem FnOK.of_compiled (G : GCtx) (fd : FnDef) (stmts : List Stmt) (e : Expr) 
     (hrel : relocate (cgFn G.mod φ fd stmts (some e) scopes0 vm0 lm0) = some r)
     (hcode : findCode G.code (mangleFnName G.mod fd.name) = some (renameVars r))
     (hframe : (fnParts G.mod φ fd stmts (some e) scopes0 vm0 lm0).envE.nv ≤ G.F)
-    (okS : Frag.okFSs G.fr false true stmts = true) (okE : Frag.okGE e = true)
+    (okS : Frag.okFSs G.fr false true stmts = true) (okE : Frag.okE G.fr e = true)
     (wsS : Frag.wsGSs G.mod fd.name φ [] stmts (fnParts G.mod φ fd stmts (some e) scopes0 vm0 lm0).envB = true)
     (wsE : Frag.wsGE (fnParts G.mod φ fd stmts (some e) scopes0 vm0 lm0).envS.scopes φ e = true)
     (tParams : ∀ p ∈ fd.params, p.name ∈ T) (tIdents : ∀ x ∈ Frag.identsGSs stmts, x ∈ T)
